@@ -1034,8 +1034,55 @@ fn report(w: &mut WorldR, k: usize, out: &mut Vec<String>) {
     }
 }
 
+/// `F <kind> 16`: a REAL 16-bit index grown to exactly `u16::MAX` = 65535 distinct terms, then two more new
+/// terms and a known one.  65535 insertions are nothing for the implementation and 15 minutes for the list-based
+/// model, so the model does not replay this one: its answer is the instance `max = 65535` of the theorems
+/// `ensure_index_full_refused` / `ensure_index_known` / `index_sized` / `audit_clean` (refused, nothing left
+/// behind, exactly MAX entries, every entry tied to its key).
+fn exec_full(kind: &str) -> String {
+    let Some(mut st) = Store::new(kind, "16") else { return "bad-op".into() };
+    let _guard = quarantine::begin();
+    let ti = st.n() == 0;
+    let feed = |st: &mut Store, t: T| -> R {
+        guarded(|| {
+            if ti {
+                each!(st, s => s.ens(&t, false))
+            } else {
+                let q = Q { s: T::Iri("x:s".into()), p: T::Iri("x:p".into()), o: t, g: None };
+                each!(st, s => s.ins(&q, false))
+            }
+        })
+    };
+    let fill = if ti { 65535 } else { 65533 };
+    let mut ok = 0usize;
+    for i in 0..fill {
+        match feed(&mut st, T::Lit(i.to_string(), "x:fill".into())) {
+            R::Idx(_) | R::Flag(true) => ok += 1,
+            _ => break,
+        }
+    }
+    let r1 = feed(&mut st, T::Iri("x:over1".into()));
+    let r2 = feed(&mut st, T::Iri("x:over2".into()));
+    let known = feed(&mut st, T::Lit("0".into(), "x:fill".into()));
+    let audit = each!(&st, s => s.audit());
+    let mut out = vec![
+        format!("filled={}", if ok == fill { 1 } else { 0 }),
+        format!("refused={}", if r1 == R::Full && r2 == R::Full { 1 } else { 0 }),
+        format!("known={}", if matches!(known, R::Idx(0) | R::Flag(false)) { 1 } else { 0 }),
+    ];
+    if let Some(v) = audit {
+        out.push(format!("n={}", v.len()));
+        out.push(format!("clean={}", if v.iter().all(|p| *p == (true, true)) { 1 } else { 0 }));
+    }
+    drop(st);
+    out.join(" ")
+}
+
 pub fn exec(line: &str) -> String {
     let toks: Vec<&str> = line.split_whitespace().collect();
+    if let ["F", kind, "16"] = toks.as_slice() {
+        return exec_full(kind);
+    }
     if toks.first() != Some(&"H") {
         return "bad-op".into();
     }
@@ -1490,6 +1537,11 @@ pub fn generate(ctx: &mut GenCtx) {
                 "clone b c".into(), "drop b".into(), "all c".into()]);
             ctx.stats.bump(&format!("scripted.growth.{}", n));
         }
+    }
+    // the real 16-bit width at exactly u16::MAX terms (answered by theorem on the model side, see `exec_full`)
+    for kind in if ctx.thorough { &["TI", "LG", "FG", "LD", "FD"][..] } else { &["TI", "LG", "FD"][..] } {
+        ctx.emit(&format!("F {} 16", kind));
+        ctx.stats.bump("real_u16_index_at_65535_terms");
     }
     let histories = if ctx.thorough { 800 } else { 200 };
     let maxlen = if ctx.thorough { 60 } else { 32 };
